@@ -389,3 +389,197 @@ def render(node, parent="alt"):
     if k == "alt":
         return "|".join(render(t, "alt") for t in node[1])
     raise KeyError(k)
+
+
+# ---- RegExp objects, lastIndex and the regex-driven String methods (22.2.6-7, 22.1.3) ----------------
+class RRegExp:
+    """Reference RegExp object: pattern AST + flags + the lastIndex property (any refsem value)."""
+
+    def __init__(self, ast, flags, last_index=0):
+        self.ast = ast
+        self.flags = flags
+        self.last_index = last_index
+        self.global_ = "g" in flags
+        self.sticky = "y" in flags
+        self.mflags = "".join(f for f in flags if f in "ims")
+
+
+def to_length(v):
+    """ToLength(ToNumber(v)) for the refsem primitives used as lastIndex."""
+    from . import ops as R
+    n = R.to_number(v)
+    if isinstance(n, float):
+        if n != n:
+            return 0
+        if n == float("inf"):
+            return 2 ** 53 - 1
+        if n == float("-inf"):
+            return 0
+        n = int(n)
+    if n <= 0:
+        return 0
+    return min(n, 2 ** 53 - 1)
+
+
+def builtin_exec(rx, s):
+    """RegExpBuiltinExec: -> None | (index, [matched, caps...]); updates rx.last_index as specified."""
+    last = to_length(rx.last_index)
+    if not rx.global_ and not rx.sticky:
+        last = 0
+    if last > len(s):
+        if rx.global_ or rx.sticky:
+            rx.last_index = 0
+        return None
+    r = exec_ref(rx.ast, rx.mflags, s, last, rx.sticky)
+    if r is None:
+        if rx.global_ or rx.sticky:
+            rx.last_index = 0
+        return None
+    index, end, groups = r
+    if rx.global_ or rx.sticky:
+        rx.last_index = end
+    return index, groups
+
+
+def get_substitution(matched, s, position, captures, template):
+    """GetSubstitution (22.1.3.19.1) without named groups."""
+    out = []
+    m = len(captures)
+    i, n = 0, len(template)
+    tail = position + len(matched)
+    while i < n:
+        c = template[i]
+        if c != "$" or i + 1 >= n:
+            out.append(c)
+            i += 1
+            continue
+        d = template[i + 1]
+        if d == "$":
+            out.append("$")
+            i += 2
+        elif d == "&":
+            out.append(matched)
+            i += 2
+        elif d == "`":
+            out.append(s[:position])
+            i += 2
+        elif d == "'":
+            out.append(s[tail:] if tail < len(s) else "")
+            i += 2
+        elif "0" <= d <= "9":
+            two = None
+            if i + 2 < n and "0" <= template[i + 2] <= "9":
+                two = int(d + template[i + 2])
+            if two is not None and 1 <= two <= m:
+                cap = captures[two - 1]
+                out.append("" if cap is None else cap)
+                i += 3
+            else:
+                one = int(d)
+                if 1 <= one <= m:
+                    cap = captures[one - 1]
+                    out.append("" if cap is None else cap)
+                    i += 2
+                else:
+                    out.append("$")
+                    i += 1
+        else:
+            out.append("$")
+            i += 1
+    return "".join(out)
+
+
+def str_match(s, rx):
+    """String.prototype.match with a regex -> None | list (global) | (index, groups) (non-global)."""
+    if not rx.global_:
+        return builtin_exec(rx, s)
+    rx.last_index = 0
+    out = []
+    while True:
+        r = builtin_exec(rx, s)
+        if r is None:
+            return out if out else None
+        out.append(r[1][0])
+        if r[1][0] == "":
+            rx.last_index = to_length(rx.last_index) + 1
+    return out
+
+
+def _collect(s, rx):
+    results = []
+    if rx.global_:
+        rx.last_index = 0
+    while True:
+        r = builtin_exec(rx, s)
+        if r is None:
+            break
+        results.append(r)
+        if not rx.global_:
+            break
+        if r[1][0] == "":
+            rx.last_index = to_length(rx.last_index) + 1
+    return results
+
+
+def str_replace(s, rx, replacement, call=None):
+    """String.prototype.replace / replaceAll with a regex; `replacement` is a template string or, with
+    `call`, a function value invoked as call(fn, [matched, caps..., position, s])."""
+    results = _collect(s, rx)
+    acc = []
+    next_pos = 0
+    for index, groups in results:
+        matched = groups[0]
+        position = max(min(index, len(s)), 0)
+        caps = groups[1:]
+        if call is not None:
+            rep = call(replacement, [matched] + list(caps) + [position, s])
+        else:
+            rep = get_substitution(matched, s, position, caps, replacement)
+        if position >= next_pos:
+            acc.append(s[next_pos:position])
+            acc.append(rep)
+            next_pos = position + len(matched)
+    if next_pos >= len(s):
+        return "".join(acc)
+    return "".join(acc) + s[next_pos:]
+
+
+def str_search(s, rx):
+    prev = rx.last_index
+    rx.last_index = 0
+    r = builtin_exec(rx, s)
+    rx.last_index = prev
+    return -1 if r is None else r[0]
+
+
+def str_split(s, rx, limit=None):
+    """String.prototype.split with a regex separator; limit: None (undefined) or a uint32 integer."""
+    lim = 2 ** 32 - 1 if limit is None else limit
+    if lim == 0:
+        return []
+    size = len(s)
+    if size == 0:
+        r = exec_ref(rx.ast, rx.mflags, s, 0, True)
+        return [] if r is not None else [s]
+    out = []
+    p = q = 0
+    while q < size:
+        r = exec_ref(rx.ast, rx.mflags, s, q, True)
+        if r is None:
+            q += 1
+            continue
+        e = min(r[1], size)
+        if e == p:
+            q += 1
+            continue
+        out.append(s[p:q])
+        if len(out) == lim:
+            return out
+        p = e
+        for cap in r[2][1:]:
+            out.append(cap)
+            if len(out) == lim:
+                return out
+        q = p
+    out.append(s[p:size])
+    return out
